@@ -18,6 +18,7 @@ type AChainCert struct {
 	NB     int    `json:"nb"`
 	NA     int    `json:"na"`
 	IA     int    `json:"ia"`
+	Key    int    `json:"key"` // 0: a key of its own; k > 0: the k-th key of the key ring
 }
 
 // ChainIA is the concrete ISD-AS of abstract subject a (0 = no ISD-AS attribute).
@@ -42,6 +43,9 @@ func NewChainWorld(p *PKI, clk Clock, pool []AChainCert, tag string) *ChainWorld
 	return cw
 }
 
+// RingKeyName names the k-th key of the key ring in the PKI key cache.
+func (cw *ChainWorld) RingKeyName(k int) string { return fmt.Sprintf("%s/ring/%d", cw.Tag, k) }
+
 // Cert returns the concrete certificate with abstract id.
 func (cw *ChainWorld) Cert(id int) *Cert {
 	if c, ok := cw.built[id]; ok {
@@ -57,6 +61,9 @@ func (cw *ChainWorld) Cert(id int) *Cert {
 	}
 	s := Spec{IA: ia, SN: int64(1000 + id), NB: cw.Clk.T(a.NB), NA: cw.Clk.T(a.NA), Ver: id,
 		KeyName: fmt.Sprintf("%s/chain/%d", cw.Tag, id)}
+	if a.Key != 0 {
+		s.KeyName = cw.RingKeyName(a.Key)
+	}
 	// subject names: roots are named by id, CAs share one name, AS certificates are named by their ISD-AS
 	switch a.Kind {
 	case "root":
